@@ -89,13 +89,40 @@ class Run:
                 objs = target.doers
                 ids = [self.name_of(d) for d in target.doers]
             else:
+                if any(str(i).startswith("@") for i in ids):
+                    # arguments that leave the doer set as it is, resolved at call time:
+                    #   @empty (nothing), @completed (members of the target that already finished by themselves),
+                    #   @self (the calling doer), @members (every current member, for an extend of present doers)
+                    names = []
+                    for i in ids:
+                        if i == "@completed":
+                            names += [self.name_of(d) for d in target.doers
+                                      if getattr(self.state.get(self.name_of(d)), "outcome", None) in ("returned", "finished")
+                                      and self.name_of(d) != spec["id"]]
+                        elif i == "@self":
+                            names.append(spec["id"])
+                        elif i == "@members":
+                            names += [self.name_of(d) for d in target.doers]
+                        elif i != "@empty":
+                            names.append(i)
+                    ids = names
                 objs = [self.objs[i] for i in ids]
                 if fresh:
                     # name a bound-method doer afresh (obj.method): equal to the member, but another object
                     objs = [types.MethodType(o.__func__, o.__self__) if isinstance(o, types.MethodType) else o
                             for o in objs]
+            registry = len(act) > 5 and act[5]
+            reg = getattr(target, "_ctor_list", None)
+            if registry and reg is not None and objs is not target.doers:
+                # the application keeps the list it once gave to the scheduler's constructor as its own registry and
+                # updates it just before telling the scheduler: the scheduler's membership must not depend on that list
+                for o in objs:
+                    if op == "extend" and o not in reg:
+                        reg.append(o)
+                    elif op == "remove" and o in reg:
+                        reg.remove(o)
             tag = "ext" if op == "extend" else "rem"
-            self.ev(tag + "-call", spec["id"], sched=sid, ids=list(ids),
+            self.ev(tag + "-call", spec["id"], sched=sid, ids=list(ids), registry=bool(registry and reg is not None),
                     before=[self.name_of(d) for d in target.doers], own_list=objs is target.doers,
                     fresh=sum(1 for i, o in zip(ids, objs) if o is not self.objs.get(i)) if objs is not target.doers else 0)
             try:
@@ -274,6 +301,7 @@ class PDoDoer(doing.DoDoer):
     def __init__(self, run, spec, children):
         self._run, self._spec = run, spec
         self._st = run.state[spec["id"]]
+        self._ctor_list = children      # the very list object handed to the constructor (see do_acts: registry)
         super().__init__(doers=children, always=spec.get("always", False), tock=spec.get("tock", 0.0))
 
     def _own(self, arg, mine):
@@ -474,6 +502,7 @@ def build(prog):
     if prog.get("tock") is not None:
         kwa["tock"] = prog["tock"]
     run.doist = PDoist(run, **kwa)
+    run.doist._ctor_list = kwa.get("doers") if isinstance(kwa.get("doers"), list) else None
     run.top = top
     return run
 
